@@ -247,6 +247,11 @@ func runC05(f *hx.Flags, w *world) int {
 		// itself: native block), next to integer and string traits
 		defs = append(defs, g.shapedDef(traitShape{opts: optSets[(3*b+1)%len(optSets)], fixedCols: []string{"int", "Str"}, allParsable: true,
 			selfCol: true, nTypes: 1, nConsts: 4 + b, rowless: b%2 == 1}))
+		// 64-bit integer traits (untyped int, uint64, the named int64 type time.Duration) with constants
+		// of magnitude >= 2^53 that float64 holds exactly: the constants must decode, their neighbours
+		// +-1, +-2, ... and the float spellings <c>.0 / <c>e0 must be rejected
+		defs = append(defs, g.shapedDef(traitShape{opts: optSets[(5*b+2)%len(optSets)], fixedCols: []string{"int", "uint64", "time.Duration"}, allParsable: true,
+			big: true, nTypes: 1, nConsts: 4 + b}))
 		// value names that are YAML/JSON-significant identifiers (one such file per package)
 		defs = append(defs, g.yamlNamesDef(optSets[(2*b)%len(optSets)]))
 		for i := 0; i < batch; i++ {
@@ -260,7 +265,7 @@ func runC05(f *hx.Flags, w *world) int {
 				}
 				defs = append(defs, d)
 			default:
-				defs = append(defs, g.shapedDef(traitShape{opts: opts, maxCols: 3, dups: i%4 == 3, families: numericAndString, rowless: i%4 == 2, emptyStr: i%8 == 1}))
+				defs = append(defs, g.shapedDef(traitShape{opts: opts, maxCols: 3, dups: i%4 == 3, families: numericAndString, rowless: i%4 == 2, emptyStr: i%8 == 1, big: i%2 == 1}))
 			}
 		}
 		g.emitC05(defs, true)
